@@ -659,6 +659,71 @@ def eq_fact2(p, a, b):
     return None
 
 
+def check_end_state(chk, m, name, CUR):
+    """M1.end-clears-curr: when a Morris step function reports the end (returns NULL) the iterator's position is NULL, so that
+    a further call reports the end again instead of restarting somewhere in the tree (re-threading links the walk had restored).
+    On a NULL-returning segment: iter->curr := NULL is stored, or the position tested NULL is iter->curr itself - on every way of
+    arriving at that test the value carried as the current node is what iter->curr holds (loaded from it and not stored since, or
+    the value last stored to it), or is known not to be NULL (then this arrival does not end the walk)."""
+    fn, ss = segs(m, name)
+    curp = paths.mkptr(("arg", 0), CUR)
+    n = 0
+    for s, p in ss:
+        if p.end != "ret" or p.ret is None or strip_casts(p.ret) != ("null",) and not (strip_casts(p.ret)[0] == "sym" and null_fact(p, strip_casts(p.ret)) is True):
+            continue
+        n += 1
+        sid = "%s %s..ret NULL" % (name, s.lstrip("%"))
+        st = [e for e in p.events if e.kind == "store" and e.ptr == curp]
+        if st:
+            chk.ob("M1.end-clears-curr", sid, st[-1].val == ("null",) or null_fact(p, strip_casts(st[-1].val)) is True,
+                   "the end is reported with iter->curr := NULL", p.ret_inst.loc, name)
+            continue
+        # which carried value was tested NULL?
+        tested = [x for c, t, i in p.conds for x in (strip_casts(strip_casts(c)[2]), strip_casts(strip_casts(c)[3]))
+                  if strip_casts(c)[0] == "icmp" and x[0] in ("sym", "ld") and null_fact(p, x) is True]
+        if s == fn.entry.name:
+            ok = any(x[0] == "ld" and x[1] == curp for x in tested)
+            chk.ob("M1.end-clears-curr", sid, ok, "the end is reported because iter->curr is NULL already", p.ret_inst.loc, name)
+            continue
+        bad = None
+        syms = [x for x in tested if x[0] == "sym"]
+        for s2, q in ss:
+            if q.end != "cut:" + s or not getattr(q, "carried", None):
+                continue
+            for sy in syms:
+                v = q.carried.get(sy[1])
+                if v is None:
+                    continue
+                v = strip_casts(v)
+                if null_fact(q, v) is False:
+                    continue            # this arrival carries a node, it does not end the walk
+                if v[0] == "ld" and ptr_parts(v[1])[0] == sy and not ptr_parts(v[1])[2]:
+                    # the same member of the same current node was found non-NULL by every way out of this loop head that goes
+                    # on (the test is made before the inner loop is entered), and no store in the function can change that member
+                    off_ = ptr_parts(v[1])[1]
+                    onward = [q2 for s3, q2 in ss if s3 == s and q2.end.startswith("cut:") and q2.end != "cut:" + s]
+                    stores_off = [e for s3, q2 in ss for e in q2.events if e.kind == "store" and not ptr_parts(e.ptr)[2] and
+                                  ptr_parts(e.ptr)[1] == off_ and ptr_parts(e.ptr)[0] != ("arg", 0)]
+                    if onward and not stores_off and all(null_fact(q2, v) is False for q2 in onward):
+                        continue
+                qst = [e for e in q.events if e.kind == "store" and e.ptr == curp]
+                if qst:
+                    same = strip_casts(qst[-1].val) == v
+                else:
+                    same = (v[0] == "ld" and v[1] == curp) or (v[0] == "sym" and s2 == s and v == sy and False)
+                    if not same and s2 != fn.entry.name:
+                        # nothing stored on this way round: iter->curr is what it was at the previous arrival; the carried node changed
+                        same = False
+                if not same:
+                    bad = "arriving from %s the current node is %s while iter->curr was last set to %s" % (
+                        s2.lstrip("%"), fmt(v)[:40], fmt(qst[-1].val)[:40] if qst else "an earlier position")
+        chk.ob("M1.end-clears-curr", sid, bad is None,
+               "the end is reported only when the position that ran out is iter->curr itself (or iter->curr := NULL is stored)" if bad is None else
+               "NULL is returned without clearing iter->curr and %s: the next call does not report the end again but resumes there, "
+               "handing nodes out a second time and threading links the completed walk had restored" % bad, p.ret_inst.loc, name)
+    return n
+
+
 def check_sibling_state(chk, m):
     """M6: bintree_iterate_post_order hands out its first node either by calling post_order_iterator, or - on a short cut of its
     own - after writing every iterator member that post_order_iterator writes whenever IT hands out a node (bintree_free reads
@@ -720,6 +785,9 @@ def run(chk):
     L, R, CUR, PAR = layout(m)
     check_morris(chk, m, "in_order_iterator", "in", L, R, CUR)
     check_morris(chk, m, "pre_order_iterator", "pre", L, R, CUR)
+    chk.rule("M1.end", "a step function that reports the end leaves iter->curr NULL (stored, or the position that ran out is iter->curr itself)")
+    check_end_state(chk, m, "in_order_iterator", CUR)
+    check_end_state(chk, m, "pre_order_iterator", CUR)
     check_post_order(chk, m, L, R, CUR, PAR)
     check_free(chk, m, L, R, CUR, PAR)
     check_list_iterators(chk, m, L, R, CUR, PAR)
